@@ -15,7 +15,7 @@ RULE = ('well-formed chart drawn per run whose guards are P.tguard(i, event, aft
         'P.tcond(j, after(d), idle(d2), time), half of whose states carry a postcondition P.tpost(j, after(d), time), half of whose transitions carry an invariant P.ttinv(i, idle(d), time) and whose entry/exit/action code logs the `time` variable; contract checking is on. The '
         'interpreter clock is a SkewClock (a larger value at every read) in half of the runs and a SimClock moved from inside probe calls '
         '(i.e. during the step) in the other half - half of those count integer ticks from 2**62+3, which no double represents; a third of the rest use decimal times (0.1, 0.3, ...) and only check that every evaluation of one predicate about one state in one step gives the same answer -; advances are drawn from {0, exactly d, d -/+ one tick, large}. Every time observation '
-        'of a step must equal the first clock value read by execute_once, and every logged after/idle value must equal the exact '
+        'of a step must equal the first clock value read by execute_once (in a third of the runs on a skewing or plain clock the chart also sends events, with delays, and events are queued with a delay between steps: neither moves anybody\'s time, and a step that finds an internal event due samples the clock like any other), and every logged after/idle value must equal the exact '
         'comparison with entry / idle stamps kept by the model from the real entered lists and fired transitions. non-trivial = a step '
         'with >= 1 after/idle observation whose stamp differs from the step time; distinct = distinct (chart, step time, stamps of the '
         'observed states)')
@@ -35,6 +35,12 @@ def run(ch, tier):
     cfg = swarm(cs, Cfg(time_guards=True, time_obs=True, internal=True, pair_bias=0), tier)
     skew = cs.flag(1, 2)
     bigint = not skew and cs.flag(1, 2)
+    decimal = not skew and not bigint and cs.flag(1, 3)
+    # in a third of the runs on a skewing or plain clock the chart also sends events (with delays): a step that finds an internal
+    # event due samples the clock like any other, and sending or queueing a delayed event moves nobody's time
+    sending = not bigint and not decimal and cs.flag(1, 3)
+    if sending:
+        cfg.sends = cfg.delays = True
     sp = gen_spec(ch.s('chart'), cfg)
     # state postconditions that use after(): evaluated when the state is left, possibly in a later micro step of the macro
     # step that entered it
@@ -49,7 +55,6 @@ def run(ch, tier):
     # decimal mode: times and durations that no double represents exactly (0.1, 0.3, ...).  What a predicate answers on a boundary
     # then depends on rounding, so the exact model is switched off; what remains is that after(d) / idle(d) is a *function* of
     # (step time, stamp, d): a guard and a contract of the same state asking the same question in the same step agree
-    decimal = not skew and not bigint and cs.flag(1, 3)
     if decimal:
         d0 = tp.pick([0.1, 0.2, 0.3, 0.5, 0.7])
         for t in sp.trans:
@@ -102,7 +107,11 @@ def run(ch, tier):
                             % (last_time, sim.it.time), chart=sp.describe())
         if op == 'queue':
             live = sorted({t.event for t in sp.trans if t.event and t.src in set(sim.it.configuration)})
-            sim.queue(ops.pick(live) if live and ops.flag(3, 4) else ops.pick(names))
+            name_ = ops.pick(live) if live and ops.flag(3, 4) else ops.pick(names)
+            if sending and ops.flag(1, 3):
+                sim.queue(name_, delay=ops.pick([1, 2, 0.5]))
+            else:
+                sim.queue(name_)
             continue
         if op == 'advance':
             if decimal:
@@ -229,6 +238,7 @@ def run(ch, tier):
                 elif t.target == t.source:
                     res.stats['self_loop_fired'] += 1
     res.stats['skew_runs' if skew else 'integer_tick_clock_beyond_2_53_runs' if bigint else 'decimal_time_runs' if decimal else 'probe_moved_runs'] += 1
+    res.stats['runs_whose_chart_sends_events_with_delays'] += int(sending)
     res.stats['fault_clock_moved_inside_step'] += moves[0] if not skew else clock.reads
     res.sim_time = float(sim.now())
     return res
